@@ -217,6 +217,11 @@ impl<F: Float, D: Data<Elem = F>> Fit<ArrayBase<D, Ix2>, ArrayBase<D, Ix2>, PlsE
         // review from Wegelin. See above for a notation mapping from code to
         // paper.
         let eps = F::epsilon();
+        // A score vector whose squared norm is not above these thresholds means that the
+        // corresponding residual is exhausted (n_components exceeds the rank of the centered
+        // data) or orthogonal to the other block: the loadings would be 0/0.
+        let x_tiny = eps * xk.iter().fold(F::zero(), |acc, &v| acc + v * v);
+        let y_tiny = eps * yk.iter().fold(F::zero(), |acc, &v| acc + v * v);
         for k in 0..n_components {
             // Find first left and right singular vectors of the x.T.dot(Y)
             // cross-covariance matrix.
@@ -237,6 +242,9 @@ impl<F: Float, D: Data<Elem = F>> Fit<ArrayBase<D, Ix2>, ArrayBase<D, Ix2>, PlsE
                 }
                 Algorithm::Svd => self.get_first_singular_vectors_svd(&xk, &yk)?,
             };
+            if x_weights_k.iter().chain(y_weights_k.iter()).any(|v| !v.is_finite()) {
+                return Err(PlsError::PowerMethodConstantResidualError());
+            }
             utils::svd_flip_1d(&mut x_weights_k, &mut y_weights_k);
 
             // compute scores, i.e. the projections of x and Y
@@ -247,6 +255,13 @@ impl<F: Float, D: Data<Elem = F>> Fit<ArrayBase<D, Ix2>, ArrayBase<D, Ix2>, PlsE
                 y_weights_k.dot(&y_weights_k)
             };
             let y_scores_k = yk.dot(&y_weights_k) / y_ss;
+            // the residual of a block is constant: there is no further component to extract
+            let x_degenerate = !(x_scores_k.dot(&x_scores_k) > x_tiny);
+            let y_degenerate = self.deflation_mode() == DeflationMode::Canonical
+                && !(y_scores_k.dot(&y_scores_k) > y_tiny);
+            if x_degenerate || y_degenerate {
+                return Err(PlsError::PowerMethodConstantResidualError());
+            }
 
             // Deflation: subtract rank-one approx to obtain xk+1 and yk+1
             let x_loadings_k = x_scores_k.dot(&xk) / x_scores_k.dot(&x_scores_k);
